@@ -340,7 +340,7 @@ func c18Codec(r *core.Run) {
 		}
 		core.InstrsOf(fn, func(in ssa.Instruction) {
 			b, ok := in.(*ssa.BinOp)
-			if !ok || b.Op.String() != "==" {
+			if !ok || (b.Op.String() != "==" && b.Op.String() != "!=") {
 				return
 			}
 			if s, ok := core.ConstString(b.Y); ok {
@@ -424,6 +424,13 @@ func c18FreshTarget(r *core.Run) {
 					}
 				}
 				if target == nil {
+					// a decoder that returns the signature by value yields a fresh value by construction
+					if callee := core.StaticCallee(c); callee != nil && p.IsProdFunc(callee) && len(c.Args) == 1 && c.Args[0].Type().String() == "[]byte" {
+						if rt := resultTypes(callee); len(rt) == 2 && core.IsNamed(rt[0], detPath(p), "Signature") && core.LoopHeaderOf(in.Block()) != nil {
+							n++
+							r.OK("C18.FRESH", core.FuncName(fn)+"#decode-returns-value", in.Pos(), "the decoder returns a new signature value for every element")
+						}
+					}
 					return
 				}
 				target = core.Unwrap(target)
